@@ -65,6 +65,9 @@ Qed.
 (* the parent relation of the occupied edges *)
 Definition par (occ : list (Z * Z * Q)) (n m : Z) : Prop := exists t, In (n, m, t) occ.
 
+Lemma t1n_first {A} (R : relation A) a b : clos_trans_1n A R a b -> exists c, R a c.
+Proof. intros H. destruct H as [y H|y z H _]; exists y; exact H. Qed.
+
 Lemma par_later occ : forestL occ -> forall n m, clos_trans_1n Z (par occ) n m ->
   forall o1 x o2, occ = o1 ++ x :: o2 -> child x = n -> forall y, In y (x :: o2) -> child y <> m.
 Proof.
@@ -76,14 +79,13 @@ Proof.
   - assert (x = (n, k, t)).
     { apply (child_unique occ); [exact F | rewrite E; apply in_app_iff; right; left; reflexivity | exact Ht | exact Ex]. }
     subst x.
-    assert (Hk : exists k' t', In (k, k', t') occ) by (destruct Hkm as [? [t' H']|? ? ? [t' H'] _]; eauto).
-    destruct Hk as (k' & t' & Hk).
-    pose proof F as F'. rewrite E in F'. destruct (forestL_mid _ _ _ F') as (_ & M2 & _). cbn [child parent fst snd] in M2.
+    destruct (t1n_first _ _ _ Hkm) as (k' & t' & Hk).
+    pose proof F as F'. rewrite E in F'. destruct (forestL_mid _ _ _ F') as (M1 & M2 & _). cbn [child parent fst snd] in M1, M2.
     rewrite E in Hk. apply in_app_or in Hk. destruct Hk as [Hk|[Hk|Hk]].
     + destruct (in_split _ _ Hk) as [a [b ->]].
       apply (IH a (k, k', t') (b ++ (n, k, t) :: o2)); [rewrite E, <- app_assoc; reflexivity | reflexivity|].
       destruct Hy as [<-|Hy]; right; apply in_app_iff; right; [left; reflexivity | right; exact Hy].
-    + inversion Hk; subst. rewrite E in F. destruct (forestL_mid _ _ _ F) as (M1 & _). exfalso. apply M1. reflexivity.
+    + inversion Hk; subst. exfalso. apply M1. reflexivity.
     + exfalso. exact (proj2 (M2 _ Hk) eq_refl).
 Qed.
 
@@ -91,8 +93,7 @@ Qed.
 Theorem forestL_acyclic occ : forestL occ -> forall n, ~ clos_trans Z (par occ) n n.
 Proof.
   intros F n H. apply clos_trans_t1n in H.
-  assert (Hn : exists m t, In (n, m, t) occ) by (destruct H as [? [t' H']|? ? ? [t' H'] _]; eauto).
-  destruct Hn as (m & t & Hn). destruct (in_split _ _ Hn) as [o1 [o2 E]].
+  destruct (t1n_first _ _ _ H) as (m & t & Hn). destruct (in_split _ _ Hn) as [o1 [o2 E]].
   exact (par_later occ F n n H o1 (n, m, t) o2 E eq_refl (n, m, t) (or_introl eq_refl) eq_refl).
 Qed.
 
@@ -114,7 +115,7 @@ Proof.
   { intros a b H. induction H as [a b [t Ht]|a|a b c _ I1 _ I2]; [apply rt_step; exists t; right; exact Ht | apply rt_refl | eapply rt_trans; eassumption]. }
   cbn [map In] in Hn. destruct Hn as [<-|Hn].
   - exists (parent x). split; [apply rt_step, Px | exact Root].
-  - destruct (IH F3 n Hn) as [r [P R]]. destruct (Z.eq_dec r (child x)) as [->|Hne].
+  - destruct (IH F3 n Hn) as [r [P R]]. destruct (Z.eq_dec r (child x)) as [-> |Hne].
     + exists (parent x). split; [eapply rt_trans; [apply Sub, P | apply rt_step, Px] | exact Root].
     + exists r. split; [apply Sub, P|]. cbn [map In]. intros [E|E]; [congruence | exact (R E)].
 Qed.
@@ -159,7 +160,7 @@ Definition first_only (l : list (Z * Q)) (h0 : list (Z * Q)) : list (Z * Q) :=
 Lemma mark_hit_keys n t hit : forall v, In v (map fst (mark_hit n t hit)) <-> In v (map fst hit) \/ v = n.
 Proof.
   intros v. destruct (in_dec Z.eq_dec n (map fst hit)) as [H|H].
-  - rewrite (mark_hit_known n t hit H). split; [tauto|]. intros [A|->]; assumption.
+  - rewrite (mark_hit_known n t hit H). split; [tauto|]. intros [A| ->]; assumption.
   - rewrite (mark_hit_fresh n t hit H), map_app, in_app_iff. cbn. intuition.
 Qed.
 
@@ -173,7 +174,7 @@ Proof.
     destruct (in_dec Z.eq_dec n0 (map fst h0)) as [K|K].
     + rewrite (mark_hit_known n0 t0 h0 K). split.
       * intros [H|[H1 [l1 [l2 [E H2]]]]]; [left; exact H|]. right. split; [exact H1|].
-        exists ((n0, t0) :: l1), l2. split; [rewrite E; reflexivity|]. cbn [map In fst]. intros [->|H3]; tauto.
+        exists ((n0, t0) :: l1), l2. split; [rewrite E; reflexivity|]. cbn [map In fst]. intros [-> |H3]; tauto.
       * intros [H|[H1 [l1 [l2 [E H2]]]]]; [left; exact H|]. right. split; [exact H1|].
         destruct l1 as [|z l1]; [inversion E; subst; contradiction|]. inversion E; subst.
         exists l1, l2. split; [reflexivity|]. intros H3. apply H2. right. exact H3.
@@ -182,7 +183,7 @@ Proof.
         -- left. exact H.
         -- inversion H; subst. right. split; [exact K|]. exists [], l. split; [reflexivity | intros []].
         -- right. split; [tauto|]. exists ((n0, t0) :: l1), l2. split; [rewrite E; reflexivity|].
-           cbn [map In fst]. intros [->|H3]; tauto.
+           cbn [map In fst]. intros [-> |H3]; tauto.
       * intros [H|[H1 [l1 [l2 [E H2]]]]]; [left; left; exact H|].
         destruct l1 as [|z l1]; inversion E; subst.
         -- left. right. left. reflexivity.
